@@ -252,45 +252,42 @@ the highwater-mark update is delivered to the CDC service (which then deletes qu
 change events up to the given mark) without any check. It is kept visible here,
 proved under the exclusion of that one command, and refuted at a concrete input. -/
 
-/-- full statement: whatever the command, if every permission check fails, nothing is changed -/
-def no_unauthenticated_state_change_full : Prop :=
-  ∀ c ∈ Gen.ClusterCmds.cmds, ∀ env : Wire.Env, (∀ p, env (.perm p) = false) →
-    Wire.noMutation (Wire.runCmd env c.body) = true
-
-theorem partial_cases_checked :
-    Gen.ClusterCmds.cmds.all (fun c => c.name == "HIGHWATER_MARK_UPDATE" || Wire.checkNoPermNoMutation c.body) = true := by
-  decide +kernel
+/-- full statement (C18.every_state_change_needs_permission_full): whatever the
+command, if every permission check fails, nothing is changed -/
+def no_unauthenticated_state_change_full : Prop := C18.every_state_change_needs_permission_full
 
 /-- ∀ command case other than HIGHWATER_MARK_UPDATE, ∀ payload, ∀ outcomes of the
 other conditions: when every permission check fails, no state-changing action runs,
 nothing is streamed and nothing crashes. -/
 theorem no_unauthenticated_state_change_partial (c : Gen.ClusterCmds.Cmd) (hc : c ∈ Gen.ClusterCmds.cmds)
     (hx : c.name ≠ "HIGHWATER_MARK_UPDATE") (env : Wire.Env) (h : ∀ p, env (.perm p) = false) :
-    Wire.noMutation (Wire.runCmd env c.body) = true := by
-  have hall := partial_cases_checked
-  rw [List.all_eq_true] at hall
-  have := hall c hc
-  simp only [Bool.or_eq_true, beq_iff_eq] at this
-  rcases this with h1 | h1
-  · exact absurd h1 hx
-  · exact Wire.checkNoPermNoMutation_sound c.body h1 env h
+    Wire.noMutation (Wire.runCmd env c.body) = true :=
+  C18.every_state_change_needs_permission_partial c hc hx env h
 
 /-- witness: a highwater-mark update with a payload, no credentials accepted for
 anything, the update channel registered and not full: the value is sent to the CDC
 service. -/
-theorem no_unauthenticated_state_change_witness : ¬ no_unauthenticated_state_change_full := by
-  intro hfull
-  have hmem : (Wire.findCmd "HIGHWATER_MARK_UPDATE").isSome = true := by decide +kernel
-  match hf : Wire.findCmd "HIGHWATER_MARK_UPDATE", hmem with
-  | some c, _ =>
-    have hc : c ∈ Gen.ClusterCmds.cmds := List.mem_of_find?_eq_some hf
-    let env : Wire.Env := fun a => match a with | .other _ => true | _ => false
-    have := hfull c hc env (fun p => rfl)
-    have hw : (Wire.findCmd "HIGHWATER_MARK_UPDATE").map (fun c => Wire.noMutation (Wire.runCmd env c.body)) = some false := by
-      decide +kernel
-    rw [hf] at hw
-    simp only [Option.map_some, Option.some.injEq] at hw
-    rw [this] at hw
-    exact absurd hw (by decide)
+theorem no_unauthenticated_state_change_witness : ¬ no_unauthenticated_state_change_full :=
+  C18.every_state_change_needs_permission_witness
+
+/-! ### lengths the reader refuses, and what it does not model -/
+
+/-- ∀ reader state at the end of a length prefix: a length that does not fit an int64
+closes the connection without allocating anything (incremental strategy) -/
+theorem oversize_length_closes (cfg : Cfg) (hinc : cfg.eager = false) (st : RState) (sz : Nat)
+    (h : sz > cfg.maxLen) :
+    (startPayload cfg st sz).phase = .closed ∧ (startPayload cfg st sz).cap = st.cap := by
+  unfold startPayload
+  simp [hinc, h]
+
+/-- once closed, further bytes change nothing -/
+theorem closed_is_final (cfg : Cfg) (st : RState) (hc : st.phase = .closed) (bs : List Nat) :
+    feedAll cfg st bs = st := by
+  induction bs with
+  | nil => rfl
+  | cons b r ih =>
+    have : feed cfg st b = st := by unfold feed; simp [hc]
+    simp only [feedAll, List.foldl_cons, this]
+    exact ih
 
 end C35
